@@ -11,6 +11,7 @@ import AlgoVerif.Proofs.C14Scc
 import AlgoVerif.Proofs.C14Cert
 import AlgoVerif.Proofs.C14Dijkstra
 import AlgoVerif.Proofs.C14Prim
+import AlgoVerif.Proofs.C14Admits
 import AlgoVerif.Props.C18
 /-!
 # C14 — property theorems
@@ -334,3 +335,184 @@ theorem C14_containers_are_C18_spec :
   have hB : 1 ≤ C14.listNodeSize := by decide
   exact ⟨fun _ _ => rfl, fun _ _ => rfl, fun _ _ => ⟨rfl, rfl⟩,
     fun eq ops => C18_stack_refines 0 eq _ hB ops, fun eq ops => C18_queue_refines 0 eq _ hB ops⟩
+
+/-! ## graph objects over time: `AddEdge` interleaved with queries, `Reverse()`, several objects
+
+`Model/C14S.lean`: a `GObj` is the fields of a Go graph struct, `World` the objects a client holds, `World.run`
+a history of `AddEdge` calls, queries, `Reverse()` calls kept as further objects, and switches between objects.
+`Spec/C14S.lean`: the same history on (kind, vertex count, list of `AddEdge` calls) triples, and `Admits`, the
+property's demand on each query's answer.  The theorems above speak about a graph value; these say which
+graph value every query of every history is answered on — the one with exactly the edges added so far. -/
+
+/-- **Every history on one object.**  For every kind, vertex count and every sequence of `AddEdge` calls
+interleaved with queries in any way: the object ends as the graph built from the calls (`GObj.build`, i.e.
+`NewX(n, edges…)`), whose adjacency structure is `buildDirected`/`buildUndirected` of the calls — the graph the
+theorems above are about — and the `i`-th step, if it is a query, returned exactly what that query returns on
+the graph built from the calls made before step `i`. -/
+theorem C14_history_state (k : Kind) (n : Nat) (ops : List Op) (hs : ∀ op ∈ ops, op.single = true) :
+    ((World.init k n).run ops).1 = ⟨#[GObj.build k n (edgesOf ops)], 0⟩ ∧
+    (GObj.build k n (edgesOf ops)).g = theGraph k n (edgesOf ops) ∧
+    ((World.init k n).run ops).2.length = ops.length ∧
+    ∀ i q, ops[i]? = some (.query q) →
+      ((World.init k n).run ops).2[i]? = some ((GObj.build k n (edgesOf (ops.take i))).answer q) := by
+  obtain ⟨h1, h2, h3, h4⟩ := run_single k n ops hs []
+  simp only [List.nil_append] at h1 h4
+  rw [← init_eval, run_refines]
+  unfold SWorld.init
+  refine ⟨?_, build_g k n _, h3, h4⟩
+  show SWorld.eval _ = _
+  unfold SWorld.eval
+  rw [h1, h2]
+  simp [SObj.eval]
+
+/-- **Every query of every history returns what the property demands for the graph consisting of exactly the
+edges added so far** (`Admits`, `Spec/C14S.lean`: paths sound, complete and — BFS — fewest edges; (strongly)
+connected components partition by (mutual) reachability; a genuine cycle iff one exists; a topological order
+respecting every edge iff none exists; a minimum spanning forest; shortest distances with realising paths for
+non-negative weights; `panic` exactly for out-of-range arguments). -/
+theorem C14_history_admitted (k : Kind) (n : Nat) (ops : List Op) (hs : ∀ op ∈ ops, op.single = true)
+    (i : Nat) (q : Query) (hi : ops[i]? = some (.query q)) (hq : q.applies k = true) :
+    ∃ a, ((World.init k n).run ops).2[i]? = some a ∧ Admits k n (edgesOf (ops.take i)) q a :=
+  ⟨_, (C14_history_state k n ops hs).2.2.2 i q hi, answer_admitted k n _ q hq⟩
+
+/-- the history of the regression case `corpus/C14/11-scc-after-addedge.ops`: query, add an edge, query again -/
+def C14_exHist : List Op :=
+  [.query .scc, .edge 1 0 0, .query .scc, .edge 0 1 0, .query .scc, .query (.path .bfs 1 0)]
+
+example : ∀ op ∈ C14_exHist, op.single = true := by decide
+example : edgesOf (C14_exHist.take 4) = [⟨1, 0, 0⟩, ⟨0, 1, 0⟩] := by decide
+-- the three `scc` answers differ although they are asked of the same object: 2, 2, then 1 component
+example : (((World.init .directed 2).run C14_exHist).2.map fun a => a.map fun
+      | .comps c => c.count
+      | _ => 99) = [.ok 2, .ok 99, .ok 2, .ok 99, .ok 1, .ok 99] := by
+  decide
+
+/-- **The instance behind seeded change C14-n1**, spelled out: on a directed object, after any interleaving of
+`AddEdge` calls and queries, `StronglyConnectedComponents()` partitions the vertices by mutual reachability in
+the edge relation of *all* calls made so far — whatever was queried in between. -/
+theorem C14_history_scc (k : Kind) (hk : k.isDirected = true) (n : Nat) (ops : List Op)
+    (hs : ∀ op ∈ ops, op.single = true) (i : Nat) (hi : ops[i]? = some (.query .scc)) :
+    ∃ c, ((World.init k n).run ops).2[i]? = some (.ok (.comps c)) ∧ c.id.size = n ∧
+      (∀ x, x < n → ∃ j, c.id[x]? = some j ∧ j < c.count) ∧
+      (∀ j, j < c.count → ∃ x, x < n ∧ c.id[x]? = some j) ∧
+      ∀ x y, x < n → y < n →
+        (c.id[x]? = c.id[y]? ↔
+          Reach (DirE n (edgesOf (ops.take i))) x y ∧ Reach (DirE n (edgesOf (ops.take i))) y x) := by
+  obtain ⟨a, h1, h2⟩ := C14_history_admitted k n ops hs i .scc hi (by simp [Query.applies, hk])
+  simp only [Admits] at h2
+  obtain ⟨c, rfl, h3, h4, h5, h6⟩ := h2
+  have hE : EdgeRel k n (edgesOf (ops.take i)) = DirE n (edgesOf (ops.take i)) := by
+    unfold EdgeRel; rw [hk]; rfl
+  rw [hE] at h6
+  exact ⟨c, h1, h3, h4, h5, h6⟩
+
+/-! ### accessors and `Reverse()` -/
+
+/-- **The state of an object is its edge list.**  For the graph of kind `k` on `n` vertices that has received the
+`AddEdge` calls `es` (in this order, invalid ones included): `V() = n`; `E()` is the number of calls with both
+endpoints valid; `Adj(v)` is exactly the list of entries those calls append (`adjSpec`, in call order; an
+undirected edge appears at both ends, a self-loop twice), `nil` for an invalid vertex; `OutDegree`/`Degree` is its
+length, `-1` for an invalid vertex; `InDegree(v)` (directed kinds) counts the stored edges pointing to `v`;
+`Edges()` (weighted kinds) lists the stored edge of every adjacency entry (undirected: only the entries whose
+neighbour is larger than their owner, so every edge between distinct vertices once and no self-loop). None of
+them panics. -/
+theorem C14_accessors (k : Kind) (n : Nat) (es : List EdgeIn) :
+    (GObj.build k n es).V = n ∧
+    (GObj.build k n es).E = (es.filter (validE n)).length ∧
+    (∀ v : Int, (GObj.build k n es).adjOf v =
+      if 0 ≤ v ∧ v < (n : Int) then .ok (some (adjSpec k n es v.toNat)) else .ok none) ∧
+    (∀ v : Int, (GObj.build k n es).outDegree v =
+      if 0 ≤ v ∧ v < (n : Int) then .ok ((adjSpec k n es v.toNat).length : Int) else .ok (-1)) ∧
+    (k.isDirected = true → ∀ v : Int, (GObj.build k n es).inDegree v =
+      if 0 ≤ v ∧ v < (n : Int) then
+        .ok ((es.filter fun e => validE n e && decide (e.v.toNat = v.toNat)).length : Int)
+      else .ok (-1)) ∧
+    (GObj.build k n es).edges =
+      if k.isDirected then (List.range n).flatMap fun v => (adjSpec k n es v).map (·.e)
+      else (List.range n).flatMap fun v => ((adjSpec k n es v).filter fun x => decide (v < x.to)).map (·.e) := by
+  refine ⟨?_, ?_, build_adjOf k n es, build_outDegree k n es, fun hk => build_inDegree k hk n es, build_edges k n es⟩
+  · show ((GObj.build k n es).g.n : Int) = n
+    rw [build_n]
+  · show ((GObj.build k n es).e : Int) = _
+    rw [build_e]
+
+-- a weighted undirected multigraph with a self-loop, parallel edges and an ignored call
+example : (GObj.build .wundirected 3 [⟨0, 1, 5⟩, ⟨1, 1, 2⟩, ⟨2, 1, 7⟩, ⟨3, 0, 1⟩, ⟨1, 0, 4⟩]).E = 4 := by decide
+example : adjSpec .wundirected 3 [⟨0, 1, 5⟩, ⟨1, 1, 2⟩, ⟨2, 1, 7⟩, ⟨3, 0, 1⟩, ⟨1, 0, 4⟩] 1 =
+    [⟨0, ⟨0, 1, 5⟩⟩, ⟨1, ⟨1, 1, 2⟩⟩, ⟨1, ⟨1, 1, 2⟩⟩, ⟨2, ⟨2, 1, 7⟩⟩, ⟨0, ⟨1, 0, 4⟩⟩] := by decide
+example : (GObj.build .wundirected 3 [⟨0, 1, 5⟩, ⟨1, 1, 2⟩, ⟨2, 1, 7⟩, ⟨3, 0, 1⟩, ⟨1, 0, 4⟩]).edges =
+    [⟨0, 1, 5⟩, ⟨1, 0, 4⟩, ⟨2, 1, 7⟩] := by decide
+
+/-- **`Reverse()`.**  For a directed kind, `Reverse()` of the graph with the calls `es` is the graph (a new
+object) with the calls `flipSpec n es`: one call per stored edge — so `E()` is the same —, every stored edge turned
+around with its weight, hence the converse edge relation, and the in- and out-degrees swapped. -/
+theorem C14_reverse_object (k : Kind) (hk : k.isDirected = true) (n : Nat) (es : List EdgeIn) :
+    (GObj.build k n es).reverse = GObj.build k n (flipSpec n es) ∧
+    (∀ x, x ∈ flipSpec n es ↔ ∃ e ∈ es, validE n e = true ∧ x = ⟨e.v, e.u, e.w⟩) ∧
+    (GObj.build k n es).reverse.E = (GObj.build k n es).E ∧
+    (∀ a b, (GObj.build k n es).reverse.g.HasArc a b ↔ (GObj.build k n es).g.HasArc b a) := by
+  have hr := build_reverse k hk n es
+  refine ⟨hr, mem_flipSpec n es, ?_, ?_⟩
+  · show (((GObj.build k n es).reverse.e : Nat) : Int) = ((GObj.build k n es).e : Nat)
+    rw [hr, build_e, build_e]
+    congr 1
+    have hall : ∀ x ∈ flipSpec n es, validE n x = true := by
+      intro x hx
+      obtain ⟨e, _, hv, rfl⟩ := (mem_flipSpec n es x).1 hx
+      rw [validE_flip]; exact hv
+    rw [List.filter_eq_self.2 hall, length_flipSpec]
+  · intro a b
+    rw [hr, build_g, build_g, theGraph_hasArc, theGraph_hasArc]
+    unfold EdgeRel
+    rw [hk]
+    exact dirE_flip n es a b
+
+example : flipSpec 3 [⟨2, 0, 7⟩, ⟨0, 1, 5⟩, ⟨5, 1, 1⟩, ⟨0, 2, 6⟩, ⟨0, 1, 4⟩] =
+    [⟨1, 0, 5⟩, ⟨2, 0, 6⟩, ⟨1, 0, 4⟩, ⟨0, 2, 7⟩] := by decide
+
+/-! ### several objects -/
+
+/-- **Every history on any number of objects refines the Spec world** (`SWorld`, `Spec/C14S.lean`): each object is
+(kind, n, list of calls); `AddEdge` appends to the *current* object's list and leaves every other object as it
+is; a query changes no object and returns the answer on the graph built from the current object's list;
+`Reverse()` adds an object whose list is the flipped list of the current one *as it is at that moment* — nothing
+done to either object afterwards reaches the other. -/
+theorem C14_world_refines (k : Kind) (n : Nat) (ops : List Op) :
+    (World.init k n).run ops = (((SWorld.init k n).run ops).1.eval, ((SWorld.init k n).run ops).2) := by
+  rw [← init_eval]; exact run_refines ops _
+
+/-- **`Reverse()` and the original are independent.**  Add `es1` to a directed object, keep `Reverse()`, add
+`es2` to the original, switch to the reversed object and add `es3` to it (queries anywhere in between change
+nothing, `C14_world_refines`): the original ends as the graph of `es1 ++ es2`, the other one as the graph of the
+flipped `es1` followed by `es3`. -/
+theorem C14_reverse_independent (k : Kind) (hk : k.isDirected = true) (n : Nat) (es1 es2 es3 : List EdgeIn) :
+    let edges := fun (es : List EdgeIn) => es.map fun e => Op.edge e.u e.v e.w
+    ((World.init k n).run (edges es1 ++ [.mkrev] ++ edges es2 ++ [.use 1] ++ edges es3)).1 =
+      ⟨#[GObj.build k n (es1 ++ es2), GObj.build k n (flipSpec n es1 ++ es3)], 1⟩ := by
+  intro edges
+  rw [C14_world_refines]
+  show SWorld.eval _ = _
+  have e1 : ((SWorld.init k n).run (edges es1)).1 = ⟨#[⟨k, n, es1⟩], 0⟩ := by
+    rw [srun_edges es1 _ (by simp [SWorld.init])]
+    simp [SWorld.init, SWorld.obj, getD_eq]
+  have e2 : ((⟨#[⟨k, n, es1⟩], 0⟩ : SWorld).run [.mkrev]).1 = ⟨#[⟨k, n, es1⟩, ⟨k, n, flipSpec n es1⟩], 0⟩ := by
+    simp [SWorld.run, SWorld.step, SWorld.obj, hk, getD_eq]
+  have e3 : ((⟨#[⟨k, n, es1⟩, ⟨k, n, flipSpec n es1⟩], 0⟩ : SWorld).run (edges es2)).1 =
+      ⟨#[⟨k, n, es1 ++ es2⟩, ⟨k, n, flipSpec n es1⟩], 0⟩ := by
+    rw [srun_edges es2 _ (by simp)]
+    simp [SWorld.obj, getD_eq]
+  have e4 : ((⟨#[⟨k, n, es1 ++ es2⟩, ⟨k, n, flipSpec n es1⟩], 0⟩ : SWorld).run [.use 1]).1 =
+      ⟨#[⟨k, n, es1 ++ es2⟩, ⟨k, n, flipSpec n es1⟩], 1⟩ := by
+    simp [SWorld.run, SWorld.step]
+  have e5 : ((⟨#[⟨k, n, es1 ++ es2⟩, ⟨k, n, flipSpec n es1⟩], 1⟩ : SWorld).run (edges es3)).1 =
+      ⟨#[⟨k, n, es1 ++ es2⟩, ⟨k, n, flipSpec n es1 ++ es3⟩], 1⟩ := by
+    rw [srun_edges es3 _ (by simp)]
+    simp [SWorld.obj, getD_eq]
+  rw [srun_append, srun_append, srun_append, srun_append, e1, e2, e3, e4, e5]
+  simp [SWorld.eval, SObj.eval]
+
+example : (((World.init .directed 3).run
+      [.edge 0 1 0, .mkrev, .edge 1 2 0, .use 1, .edge 2 2 0, .query .dump]).1.objs.toList.map fun o =>
+        (o.e, (List.range 3).map fun v => (o.g.adj.getD v []).map (·.to))) =
+    [(2, [[1], [2], []]), (2, [[], [0], [2]])] := by decide
+
